@@ -18,6 +18,18 @@ Definition to_mqtt (out_prefix : str) (line : str) : option (str * str * Z) :=
   | _ => None
   end.
 
+(* MQTTClient._publish: what the broker client's publish is called with:
+   (topic, qos, retain, payload) — the payload keyword is left out when empty *)
+Definition client_publish (topic payload : str) (qos : Z) : str * Z * bool * option str :=
+  (topic, qos, false, match payload with [] => None | _ => Some payload end).
+
+(* MQTTClient.write = MQTTTransport.write ; _publish *)
+Definition client_write (out_prefix : str) (line : str) : option (str * Z * bool * option str) :=
+  match to_mqtt out_prefix line with
+  | Some (topic, payload, qos) => Some (client_publish topic payload qos)
+  | None => None
+  end.
+
 Definition lastn {A} (n : nat) (l : list A) : list A := skipn (List.length l - n) l.
 
 (* _parse_mqtt_to_message *)
